@@ -894,6 +894,107 @@ pub fn fam_l1(tier: Tier) -> Vec<Config> {
     out
 }
 
+// ------------------------------------------------------------ family verdict
+
+/// C01: outcome chains x skipped steps x `@allow.skipped` x parser errors.
+pub fn fam_verdict(tier: Tier) -> Vec<Config> {
+    let mut out = Vec::new();
+    let perrs: &[Option<bool>] =
+        if tier == Tier::Quick { &[None, Some(false)] } else { &[None, Some(false), Some(true)] };
+    let ffs: &[bool] = if tier == Tier::Quick { &[false] } else { &[false, true] };
+    for second in [M, StepKind::NoMatch, StepKind::Ambiguous] {
+        for allow in ["none", "scenario", "rule", "feature"] {
+            if allow != "none" && second != StepKind::NoMatch {
+                continue;
+            }
+            for n in 0..=2usize {
+                for b_kind in [M, StepKind::NoMatch] {
+                    for perr in perrs {
+                        for ff in ffs {
+                            let mut tags: Vec<String> = vec![];
+                            if n > 0 {
+                                tags.push(format!("retry({n})"));
+                            }
+                            if allow == "scenario" {
+                                tags.push("allow.skipped".into());
+                            }
+                            let t = ScenSpec { tags, steps: vec![M, second] };
+                            let f1 = if allow == "rule" {
+                                FeatSpec {
+                                    rules: vec![RuleSpec {
+                                        tags: vec!["allow.skipped".into()],
+                                        bg: vec![],
+                                        scenarios: vec![t],
+                                    }],
+                                    ..Default::default()
+                                }
+                            } else {
+                                FeatSpec {
+                                    tags: if allow == "feature" { vec!["allow.skipped".into()] } else { vec![] },
+                                    scenarios: vec![t],
+                                    ..Default::default()
+                                }
+                            };
+                            let mut cfg = base(String::new());
+                            cfg.feats = vec![f1, feat(vec![scen(&[], &[b_kind])])];
+                            cfg.items = vec![Item::Feat(0), Item::Feat(1)];
+                            match perr {
+                                Some(false) => cfg.items.push(Item::Err("e-last".into())),
+                                Some(true) => cfg.items.insert(0, Item::Err("e-first".into())),
+                                None => {}
+                            }
+                            cfg.before = true;
+                            cfg.after = true;
+                            cfg.conc_builder = Some(Some(2));
+                            cfg.fail_fast_builder = *ff;
+                            cfg.plan.gates = GateMode::Steps;
+                            let info = cfg.scen_infos()[0].clone();
+                            let keys = callable_keys(&info, true, true);
+                            let mut firsts = vec![Fault::None];
+                            for (i, (_, kind)) in keys.iter().enumerate() {
+                                if kind.is_none() || *kind == Some(M) {
+                                    firsts.push(Fault::Call(i, Outcome::PanicString));
+                                }
+                            }
+                            let ai = keys.len() - 1;
+                            let mut chains: Vec<Vec<Fault>> = Vec::new();
+                            for f0 in &firsts {
+                                chains.push(vec![*f0]);
+                                if n >= 1 && *f0 != Fault::None {
+                                    for f1 in [Fault::None, *f0, Fault::Call(ai, Outcome::PanicStr), Fault::Call(0, Outcome::PanicStr)] {
+                                        chains.push(vec![*f0, f1]);
+                                        if n >= 2 && f1 != Fault::None {
+                                            for f2 in [Fault::None, f1] {
+                                                chains.push(vec![*f0, f1, f2]);
+                                            }
+                                        }
+                                    }
+                                }
+                            }
+                            chains.dedup();
+                            for chain in chains {
+                                let Some((outcomes, worlds)) = chain_plan(&info, true, true, &chain) else {
+                                    continue;
+                                };
+                                let mut c = cfg.clone();
+                                c.plan.outcomes = outcomes;
+                                c.plan.world_new = worlds;
+                                c.max_execs = 200;
+                                c.name = format!(
+                                    "verdict/{second:?}|allow-{allow}|n{n}|b{b_kind:?}|perr{perr:?}|ff{}|{chain:?}",
+                                    u8::from(*ff)
+                                );
+                                out.push(c);
+                            }
+                        }
+                    }
+                }
+            }
+        }
+    }
+    out
+}
+
 pub fn family(name: &str, tier: Tier) -> Vec<Config> {
     match name {
         "seq" => fam_seq(tier),
@@ -904,6 +1005,7 @@ pub fn family(name: &str, tier: Tier) -> Vec<Config> {
         "ff" => fam_ff(tier),
         "panic" => fam_panic(tier),
         "l1" => fam_l1(tier),
+        "verdict" => fam_verdict(tier),
         other => panic!("unknown family {other}"),
     }
 }
